@@ -353,6 +353,18 @@ class World:
 
     def params(self, par):
         p = make_params(par)
+        # the kind of container the client keeps its phase lists in differs from world to world: tuples, lists, or - for
+        # the fractions - ONE float64 array per distinct value that the client built once and hands over with every call
+        # of its history (what it holds must still hold the same numbers after a call: nobody else may write into it)
+        kind = getattr(World, "_count", 0) % 3
+        if kind == 1:
+            p["phase_fractions"], p["phase_assemblage"] = list(p["phase_fractions"]), list(p["phase_assemblage"])
+        elif kind == 2:
+            self._held_fractions = getattr(self, "_held_fractions", {})
+            key = tuple(p["phase_fractions"])
+            if key not in self._held_fractions:
+                self._held_fractions[key] = np.array(key, dtype=np.float64)
+            p["phase_fractions"] = self._held_fractions[key]
         if self._params_obj is None:
             return p
         self._params_obj.clear()
@@ -403,7 +415,7 @@ class World:
         try:
             # the client's logging configuration (as found / silenced / DEBUG) differs from world to world; what the
             # library does must not depend on it
-            with client_logging(getattr(World, "_count", 0)):
+            with client_logging(getattr(World, "_count", 0), debug_log=getattr(World, "debug_log", False)):
                 getattr(self, "_" + a)(act)
             err = None
         except BaseException as e:  # noqa: BLE001 - outcome classification is the point
